@@ -19,7 +19,7 @@ RULE = (
     "sample or condition that is absent from this stage's rows"
 )
 ASSUMPTIONS = ["the lineage root is the screen handed to the hold-out split (what prepare_retrospective_simulation saves)"]
-REQUIRED = {"copies_of_stages_and_views_checked": {"quick": 300, "thorough": 5000}, "cli_prepared_lineages": {"quick": 12, "thorough": 120}, "stages_checked": {"quick": 6000, "thorough": 60000}, "stages_with_holdout_only_conditions": {"quick": 3000, "thorough": 30000}, "prediction_comparisons": {"quick": 50000, "thorough": 500000}, "cli_stages": {"quick": 400, "thorough": 4000}, "zero_row_stages": {"quick": 15, "thorough": 200}, "train_cli_runs": {"quick": 40, "thorough": 500}}
+REQUIRED = {"lineages_with_a_supplied_numbering_that_is_not_alphabetical": {"quick": 30, "thorough": 400}, "copies_of_stages_and_views_checked": {"quick": 300, "thorough": 5000}, "cli_prepared_lineages": {"quick": 12, "thorough": 120}, "stages_checked": {"quick": 6000, "thorough": 60000}, "stages_with_holdout_only_conditions": {"quick": 3000, "thorough": 30000}, "prediction_comparisons": {"quick": 50000, "thorough": 500000}, "cli_stages": {"quick": 400, "thorough": 4000}, "zero_row_stages": {"quick": 15, "thorough": 200}, "train_cli_runs": {"quick": 40, "thorough": 500}}
 N_LIN = {"quick": 640, "thorough": 6400}
 
 
@@ -222,6 +222,16 @@ def run_shard(rec, tier, seed, shard, nshards):
             if rng.random() < 0.3:
                 # the screen is built with mapping tables the CALLER owns (e.g. read from an experiment-space file)
                 callers_tables = (tuple(np.array(a, copy=True) for a in full.treatment_mapping), tuple(np.array(a, copy=True) for a in full.sample_mapping))
+                if rng.random() < 0.6:
+                    # a numbering that is dense but does not follow the alphabet (a lab's own cell-line numbers, an
+                    # experiment space written by an earlier campaign), listed in any order
+                    (tn_, td_, ti_), (sn_, si_) = callers_tables
+                    si_[:] = rng.permutation(len(si_))
+                    nc_ = ti_ >= 0
+                    ti_[nc_] = rng.permutation(int(nc_.sum()))
+                    o_s, o_t = rng.permutation(len(si_)), rng.permutation(len(ti_))
+                    callers_tables = ((tn_[o_t], td_[o_t], ti_[o_t]), (sn_[o_s], si_[o_s]))
+                    rec.count("lineages_with_a_supplied_numbering_that_is_not_alphabetical")
                 try:
                     full = Screen(treatment_mapping=callers_tables[0], sample_mapping=callers_tables[1], **kw)
                 except Exception as e:
